@@ -41,7 +41,17 @@ STATUS = {'offline': 0, 'away': 1, 'online': 2}
 
 def cases(tier: str, seed: int) -> list[dict]:
     n = 1500 if tier == 'quick' else 120000
-    return [{'seed': seed, 'n': i} for i in range(n)]
+    out = [{'seed': seed, 'n': i} for i in range(n)]
+    # directed: every user with a queued upload is offline, then the server announces all of them online (or away) in
+    # one burst - the status messages are handled back to back, each one makes more uploads eligible
+    k = 0
+    for n_peers_ in (2, 3, 4):
+        for limit_ in (1, 2):
+            for st_ in ('online', 'away'):
+                for at_ in (1.0, 2.5):
+                    out.append({'seed': seed, 'n': n + k, 'force': {'n_peers': n_peers_, 'limit0': limit_, 'burst': st_, 'at': at_}})
+                    k += 1
+    return out
 
 
 def tier_of(user: dict) -> int:
@@ -87,6 +97,26 @@ def run_case(params: dict) -> dict:
     for u in pop:
         u['drops_link'] = hrng.random() < 0.35
         u['reach_latency'] = hrng.choice([0.3, 1.0, 3.0])
+    # the server announces the status of every followed user in one burst (one segment: the messages are handled
+    # back to back) - e.g. several users with queued uploads coming online together
+    if hrng.random() < 0.4:
+        script.append({'kind': 'status-burst', 'at': hrng.choice([0.3, 1.0, 2.5, 7.0]), 'peer': 0, 'value': 0,
+                       'status': hrng.choice(['online', 'online', 'away']), 'how': 'assign'})
+        if hrng.random() < 0.5:
+            for u in pop:
+                if hrng.random() < 0.7:
+                    u['status'] = 'offline'
+    force = params.get('force')
+    if force:
+        pop = pop[:force['n_peers']]
+        while len(pop) < force['n_peers']:
+            pop.append(dict(pop[0], name=f'd{len(pop)}'))
+        n_peers = len(pop)
+        limit0 = force['limit0']
+        for k_, u in enumerate(pop):
+            u.update(status='offline', reply='allow', read='all', drops_link=False, hold=3.0,
+                     friend=True, privileged=(k_ == len(pop) - 1))       # friends: followed from login on, known to be offline
+        script = [{'kind': 'status-burst', 'at': force['at'], 'peer': 0, 'value': 0, 'status': force['burst'], 'how': 'assign'}]
     script.sort(key=lambda e: e['at'])
     tm = TransferMonitor()
     viol: list = []
@@ -299,6 +329,21 @@ def run_case(params: dict) -> dict:
                 if isinstance(last, AddUser.Request) and name not in unknown:
                     w.server.push('up', GetUserStatus.Response(name, STATUS[ev['status']], fold[name]['privileged']))
                     trace.append((round(w.now, 3), 'status', name, ev['status']))
+            elif ev['kind'] == 'status-burst':
+                from aioslsk.protocol.messages import RemoveUser
+                burst = []
+                for u in pop:
+                    n_ = u['name']
+                    last = None
+                    for _, u_, m_ in w.server.frames:
+                        if u_ == 'up' and isinstance(m_, (AddUser.Request, RemoveUser.Request)) and m_.username == n_:
+                            last = m_
+                    if isinstance(last, AddUser.Request) and n_ not in unknown:
+                        burst.append(GetUserStatus.Response(n_, STATUS[ev['status']], fold[n_]['privileged']))
+                if burst:
+                    w.server.push('up', *burst)
+                    obs['status_bursts'] = obs.get('status_bursts', 0) + 1
+                    trace.append((round(w.now, 3), 'status-burst', len(burst), ev['status']))
             elif ev['kind'] == 'priv':
                 w.server.push('up', AddPrivilegedUser.Response(name))
                 trace.append((round(w.now, 3), 'priv', name))
